@@ -7,18 +7,18 @@ CONSTANTS
   Queues = {0, 1}
   MaxOps = 4
   MaxPost = 1
-  MaxCrashes = 1
-  Policy = "always_fsync"
-  LossModels = {"process", "power"}
+  MaxCrashes = 0
+  Policy = "always_flush"
+  LossModels = {}
   GcAlwaysSyncs = TRUE
   OpenSizesLast = TRUE
   PayLens = {2, 9}
   BatchSizes = {1, 2}
   AllowExplicit = FALSE
-  MaxDamage = 0
-  DamageKinds = {}
-  CrcQuarantinesBlock = FALSE
+  MaxDamage = 1
+  DamageKinds = {"crc"}
+  CrcQuarantinesBlock = TRUE
 INIT MCInit
 NEXT MCNext
-INVARIANTS VerdictOk Refines NextAboveAssigned BatchAtomic BufInv
+INVARIANTS VerdictOk BatchAtomic BufInv
 CHECK_DEADLOCK FALSE
